@@ -267,7 +267,11 @@ def checksum_rec(ctx, F):
             want += [(data(1), new1), (data(2), new2)]
         found[size] = found.get(size, 0) + 1
         ctx.instance(r, len(want))
-        ctx.ob(r, ("InnerChecksum::update<%d>" % size, "recurrence"), stores == want,
+        # final content of self.data, however it is written (element stores or one array store)
+        st_ = common.final_array_state(stores, ("field", ("deref", P(1)), 0), size)
+        others = [pl for pl, _ in stores if not common.find_all(pl, lambda y: y == ("field", ("deref", P(1)), 0))]
+        okrec = st_ is not None and not others and st_ == {i: v for i, (_, v) in enumerate(want)}
+        ctx.ob(r, ("InnerChecksum::update<%d>" % size, "recurrence"), okrec,
                "checksum update (%d-byte) stores %s; reference %s" % (
                    size, [(sym.fmt(a), sym.fmt(v)) for a, v in stores], [(sym.fmt(a), sym.fmt(v)) for a, v in want]),
                cfg=F.key, where=b.where())
